@@ -26,7 +26,7 @@ tvars == <<fvars, tid, l, bad, drift>>
 
 EvOf(e)  == [k |-> e.k, n |-> e.n, t |-> e.t]
 NodeOf(r) == [kind |-> r.kind, events |-> { EvOf(r.events[i]) : i \in DOMAIN r.events }]
-CfgOf(t) == [start |-> Traces[t].cfg.start,
+CfgOf(t) == [start |-> Traces[t].cfg.start, late |-> TRUE,      \* any recorded environment step is a model step
              nodes |-> [n \in DOMAIN Traces[t].cfg.nodes |-> NodeOf(Traces[t].cfg.nodes[n])]]
 Rec(t, i) == Traces[t].steps[i]
 (* node attribute 'served', recorded per event in the order of cfg.nodes[n].events *)
@@ -46,7 +46,7 @@ Bind(r) ==
     /\ queued' = [n \in Nodes |-> r.st.nque[n] > 0 /\ (todo'[n] # {} \/ exec'[n] # {})]
     /\ targets' = ToSet(r.st.targets)
     /\ booted' = IF up' THEN UNION { { <<n, e>> : e \in BootEv(n) } : n \in Nodes } ELSE {}
-    /\ env' = IF r.ev \in {"Tick", "LateTick", "Advance", "NewTarget", "Pause", "Unpause"} THEN env - 1 ELSE env
+    /\ env' = IF r.ev \in {"Tick", "LateTick", "Advance", "NewTarget", "Pause"} THEN env - 1 ELSE env
     \* what the operator asked for (the harness called schedule.pause() / unpause()), never read back from the code
     /\ paused' = IF r.ev = "Pause" THEN TRUE ELSE IF r.ev = "Unpause" THEN FALSE ELSE paused
     /\ lastFire' = [n \in Nodes |-> IF Fired(n) THEN clock' ELSE lastFire[n]]
@@ -104,6 +104,10 @@ TraceNext ==
        /\ drift' = ~ModelStep(r)
        /\ \A n \in Nodes : StepClauses(n) # {} => PrintT(<<"CLAUSE", Traces[tid].tid, l + 1, r.ev, StepClauses(n), n>>)
        /\ (drift' => PrintT(<<"DRIFT", Traces[tid].tid, l + 1, r.ev>>))
+       \* witness (counted, not judged): a firing for a moment of today that came more than Window ago
+       /\ \A n \in Nodes : (Fired(n) /\ \E m \in AllOcc(n) : /\ cfg.start < m /\ m + Window < clock' /\ clock' < EndOfDay(m)
+                                                                /\ lastFire[n] < m - Window)
+                               => PrintT(<<"LATEFIRE", Traces[tid].tid, l + 1, n>>)
 
 TraceSpec == TraceInit /\ [][TraceNext]_tvars
 
